@@ -122,10 +122,18 @@ func (r *srun) observe() {
 			r.emit(obs{E: "HandleAfterStop", K: n, Note: "Handle calls still running when Stop() returned"})
 		}
 		r.emit(obs{E: "StopRet"})
+		if n := moduleGoroutines(); n > 0 {
+			r.emit(obs{E: "Leak", K: n, Note: "goroutines of the library still alive when Stop() had returned"})
+		}
 	}
 	if r.graceRet.Load() && !r.graceRetLogged {
 		r.graceRetLogged = true
 		r.emit(obs{E: "GraceRet"})
+		// C19: GracefulStop() has returned and every goroutine of the bubble is durably blocked: a goroutine of the
+		// discipline that is still there (e.g. a handler inside Handle) is a leftover
+		if n := moduleGoroutines(); n > 0 {
+			r.emit(obs{E: "Leak", K: n, Note: "goroutines of the library still alive when GracefulStop() had returned"})
+		}
 	}
 	for !r.ecLogged {
 		select {
